@@ -33,6 +33,7 @@ FIXED = [
     ("C09", "d6b99f4", "a CSV row larger than the csv writer's 8 KiB buffer containing multi-byte characters was truncated or dropped (WritableBuffer rejected chunks ending inside a UTF-8 sequence)", ["csv-long-multibyte-row"]),
     ("C12", "21e45fe", "glob/LIKE translation left + { } | and backslash unescaped (`name = 'a+b*'` matched aab.txt, not a+b.txt; `{` made the pattern invalid) and LIKE treated `?` as an optional-character wildcard", ["glob-metachars", "like-metachars"]),
     ("C12", "5c12388", "the compiled-pattern cache was keyed by pattern text only: the same text under `=` and `like`/`=~` in one query reused the first compilation", ["cache-shared-across-operators"]),
+    ("C14", "de3a680", "size literals with the documented units t, tb, tib were not parsed (`size = 1t` compared with 0)", ["t-units", "tb-units", "tib-fraction"]),
 ]
 
 OPEN = [
